@@ -281,6 +281,63 @@ func zzC04_upload() {
 	symAssert(l.cli.receivingMessagesCache.Length() == 0 && l.cli.sendingMessagesCache.Length() == 0 && l.srv.receivingMessagesCache.Length() == 0 && l.srv.sendingMessagesCache.Length() == 0, "no block-wise reassembly or send buffer outlives the exchange and its deadline")
 }
 
+// two uploads with different tokens whose blocks arrive interleaved at one responder: bodies never mix
+func zzC04_two_transfers() {
+	l := zzNewLink(0, 0)
+	tokA, tokB := message.Token{0xA1, 0xA2}, message.Token{0xB1}
+	if symChoose("tokens", 2) == 1 {
+		// tokens that differ only in length / leading zero bytes are still different tokens
+		tokA, tokB = message.Token{0x00, 0x2a}, message.Token{0x2a}
+		symCover("lookalike-tokens")
+	}
+	bodyA, bodyB := symBytes("bodyA", 40), symBytes("bodyB", 40)
+	var gotA, gotB []byte
+	nA, nB := 0, 0
+	l.srvApp = func(w *responsewriter.ResponseWriter[*zzBWClient], r *pool.Message) {
+		if bytes.Equal(r.Token(), tokA) {
+			nA++
+			gotA = append([]byte(nil), zzBody(r)...)
+		} else {
+			nB++
+			gotB = append([]byte(nil), zzBody(r)...)
+		}
+		_ = w.SetResponse(codes.Changed, message.TextPlain, nil)
+	}
+	block := func(tok message.Token, body []byte, num int) *pool.Message {
+		m := pool.NewMessage(context.Background())
+		m.SetCode(codes.POST)
+		m.SetToken(tok)
+		_ = m.SetPath("/up")
+		lo, hi := num*16, num*16+16
+		more := true
+		if hi >= len(body) {
+			hi, more = len(body), false
+		}
+		v, _ := EncodeBlockOption(SZX16, int64(num), more)
+		m.SetOptionUint32(message.Block1, v)
+		m.SetBody(bytes.NewReader(body[lo:hi]))
+		return m
+	}
+	ia, ib := 0, 0
+	for ia < 3 || ib < 3 {
+		pickA := ia < 3
+		if ia < 3 && ib < 3 {
+			pickA = symChoose("next", 2) == 0
+		}
+		if pickA {
+			_ = l.toServer(block(tokA, bodyA, ia))
+			ia++
+		} else {
+			_ = l.toServer(block(tokB, bodyB, ib))
+			ib++
+		}
+	}
+	symCover("both-sent")
+	symAssert(nA == 1 && nB == 1, "each upload is delivered to the application exactly once")
+	symAssert(bytes.Equal(gotA, bodyA), "transfer A delivers exactly A's bytes (concurrent transfers never mix)")
+	symAssert(bytes.Equal(gotB, bodyB), "transfer B delivers exactly B's bytes (concurrent transfers never mix)")
+}
+
 // a final block that arrives after the reassembly state has expired must not be presented as the complete body
 func zzC04_stale() {
 	l := zzNewLink(0, 0)
